@@ -67,7 +67,9 @@ struct CallResult {
 
 fn classify_error(text: &str) -> &'static str {
     let t = text;
-    if t.contains("simulated transport error") {
+    if t == "verifier panicked" {
+        "panic"
+    } else if t.contains("simulated transport error") {
         "transport"
     } else if t.contains("certificate hash unmatch") {
         "hash_unmatch"
@@ -143,14 +145,19 @@ fn execute(sc: &Scenario, ws: &Workshop, events: &[Event], cf: &Counterfactual) 
             }
             Event::SetRule(l) => provider.set_rule(l.clone()),
             Event::ClearRules => provider.clear_rules(),
-            Event::Call { subject, start, lies, .. } => {
+            Event::Call { subject, start, lies, note } => {
+                if std::env::var_os("VERIF_TRACE").is_some() {
+                    eprintln!("trace call {subject:?} start #{start} lies {lies:?} note {note}");
+                }
                 let call = results.len();
                 let start_hash = ws.built[*start].cert.hash.clone();
                 provider.begin_call(lies.clone());
                 if let Some(c) = &cache {
                     c.begin_call(call);
                 }
-                let outcome: Result<Certificate, String> = match subject {
+                // a panic of the code under test on hostile input is not an acceptance: it is
+                // recorded as a rejection of class `panic` and counted (probe), never a C03 verdict
+                let outcome: Result<Certificate, String> = std::panic::catch_unwind(std::panic::AssertUnwindSafe(|| match subject {
                     Subject::Client => match rt.block_on(client.verify_chain(&start_hash)) {
                         Ok(message) => message.try_into().map_err(|e| format!("accepted message does not convert: {e:#}")),
                         Err(e) => Err(format!("{e:#}")),
@@ -166,7 +173,8 @@ fn execute(sc: &Scenario, ws: &Workshop, events: &[Event], cf: &Counterfactual) 
                             },
                         },
                     },
-                };
+                }))
+                .unwrap_or_else(|_| Err("verifier panicked".to_string()));
                 let served = provider.end_call();
                 let accepted = outcome.is_ok();
                 let (cache_stores, cache_hits) = match (&cache, subject) {
@@ -370,7 +378,7 @@ fn describe_call(ws: &Workshop, ev: &Event, r: &CallResult) -> Value {
         "note": note,
         "lies": lies.len(),
         "requests": served,
-        "cache_hits": r.cache_hits.iter().map(|h| short(&h.hash)).collect::<Vec<_>>(),
+        "cache_hits": r.cache_hits.iter().map(|h| format!("{} => skip to {}", short(&h.hash), short(&h.previous_hash))).collect::<Vec<_>>(),
         "cache_stores": r.cache_stores.len(),
         "verdict": if r.accepted { "accepted".to_string() } else { format!("rejected: {}", r.error_class) },
         "oracle": match &r.verdict { Some(Ok(n)) => format!("valid chain of {n}"), Some(Err(b)) => format!("{b:?}"), None => "-".into() },
@@ -388,6 +396,9 @@ fn tally(report: &mut RunReport, sc: &Scenario, ws: &Workshop, results: &[CallRe
         report.count("sim_certificates_served", r.served.iter().filter(|s| s.id.is_some()).count() as u64);
         let mut kinds: BTreeSet<String> = BTreeSet::new();
         for s in &r.served {
+            if s.lie_kind.as_deref() == Some(provider::BUDGET_EXHAUSTED) {
+                continue;
+            }
             if let Some(k) = &s.lie_kind {
                 kinds.insert(k.clone());
             }
@@ -404,6 +415,9 @@ fn tally(report: &mut RunReport, sc: &Scenario, ws: &Workshop, results: &[CallRe
         }
         if !r.cache_hits.is_empty() {
             report.hit("probe_call_with_cache_hit");
+        }
+        if r.served.iter().any(|s| s.lie_kind.as_deref() == Some(provider::BUDGET_EXHAUSTED)) {
+            report.hit("probe_verifier_never_stops_asking_cut_by_harness");
         }
         if !r.unverified_hash_cache_hits.is_empty() {
             report.hit("probe_cache_hit_on_object_with_unverified_hash");
@@ -431,12 +445,40 @@ fn tally(report: &mut RunReport, sc: &Scenario, ws: &Workshop, results: &[CallRe
             if c.hash != ws.built[r.start].cert.hash {
                 report.hit("probe_accepted_other_hash_than_requested");
             }
+            // informational (stricter than the statement): was every member of the valid chain
+            // either served during this call or vouched for by a cache hit of this call?
+            if matches!(r.verdict, Some(Ok(_))) {
+                let mut evidenced: BTreeSet<&str> = r.cache_hits.iter().map(|h| h.hash.as_str()).collect();
+                for s in &r.served {
+                    if let Some(i) = s.id {
+                        evidenced.insert(ws.built[i].content_hash.as_str());
+                    }
+                }
+                let mut cur = c;
+                let mut missing = false;
+                while !cur.is_genesis() {
+                    let Some(p) = ws.by_content.get(&cur.previous_hash) else { break };
+                    if !evidenced.contains(ws.built[*p].content_hash.as_str()) {
+                        missing = true;
+                    }
+                    cur = &ws.built[*p].cert;
+                }
+                if missing {
+                    if std::env::var_os("VERIF_TRACE").is_some() {
+                        eprintln!("trace unevidenced {}", describe_call(ws, &sc.events[r.event_index], r));
+                    }
+                    report.hit("probe_accepted_valid_chain_member_neither_served_nor_cache_vouched");
+                }
+            }
             let all_honest = r.served.iter().all(|s| s.id.is_none_or(|i| ws.built[i].honest));
             if !all_honest && matches!(r.verdict, Some(Ok(_))) {
                 report.hit("probe_accepted_valid_chain_with_adversarial_certificates");
             }
         } else {
             report.hit(&format!("verdict_rejected_{}", r.error_class));
+            if r.error_class == "panic" {
+                report.hit("probe_verifier_panicked");
+            }
         }
         let oracle_tag = match &r.verdict {
             Some(Ok(_)) => "valid".to_string(),
@@ -627,6 +669,13 @@ impl Engine for CertChainEngine {
 }
 
 fn main() {
+    // keep worker stderr quiet if the code under test panics (recorded as a rejection, see execute)
+    std::panic::set_hook(Box::new(|info| {
+        let text = info.to_string();
+        if text.contains("harness bug") || std::env::var_os("VERIF_TRACE").is_some() {
+            eprintln!("panic: {text}");
+        }
+    }));
     // the repo's fixture code probes `std::env::temp_dir()` for per-party key files: point it at
     // the simulator's scratch root so that nothing under /tmp can influence a run
     let scratch = sim_core::scratch::scratch_root();
